@@ -1374,6 +1374,25 @@ func (ev *evalCtx) call(x *ast.CallExpr, want types.Type) (string, types.Type, e
 			return fmt.Sprintf("(not (= (fn_id %s) 0))", a), boolT, nil
 		}
 		return "", nil, fmt.Errorf("nonnil of %s", t)
+	case "sameheap":
+		// sameheap(): every heap component (and the allocation counter) is what it was at
+		// function entry - "the call had no effect at all" (for contracts whose frame is
+		// otherwise `modifies all`)
+		if err := argc(0); err != nil {
+			return "", nil, err
+		}
+		if ev.old == nil {
+			return "true", boolT, nil
+		}
+		var eqs []string
+		for _, k := range append([]string{"alloc"}, ev.c.allComps()...) {
+			a, b := ev.heap[k], ev.old.heap[k]
+			if a == b {
+				continue // same version (or both still the initial one)
+			}
+			eqs = append(eqs, fmt.Sprintf("(= %s %s)", ev.H(k), ev.old.H(k)))
+		}
+		return and(eqs...), boolT, nil
 	case "atentry":
 		// atentry(e): value of e when the loop was entered (loop invariants only)
 		if err := argc(1); err != nil {
